@@ -21,15 +21,16 @@ func TestC04(t *testing.T) {
 	values := s.Pick(60, 200)
 	rapid.Check(t, func(rt *rapid.T) {
 		o := gen.Opts{
-			MaxDepth:     rapid.IntRange(2, 5).Draw(rt, "maxdepth"),
-			SamePkg:      rapid.IntRange(0, 2).Draw(rt, "samepkg") == 0,
-			Flags:        rapid.Bool().Draw(rt, "flags"),
-			SkipCopy:     rapid.IntRange(0, 2).Draw(rt, "skipcopy") == 0,
-			Exotic:       rapid.Bool().Draw(rt, "exotic"),
-			Arrays:       true,
-			ArraysAssign: !s.Open("F-ARRAY-ASSIGN"),
-			Unexported:   rapid.Bool().Draw(rt, "unexported"),
-			NoSharedAddr: s.Open("F-SKIPCOPY-INTERIOR-PTR"),
+			MaxDepth:      rapid.IntRange(2, 5).Draw(rt, "maxdepth"),
+			SamePkg:       rapid.IntRange(0, 2).Draw(rt, "samepkg") == 0,
+			Flags:         rapid.Bool().Draw(rt, "flags"),
+			SkipCopy:      rapid.IntRange(0, 2).Draw(rt, "skipcopy") == 0,
+			Exotic:        rapid.Bool().Draw(rt, "exotic"),
+			Arrays:        true,
+			ArraysAssign:  !s.Open("F-ARRAY-ASSIGN"),
+			Unexported:    rapid.Bool().Draw(rt, "unexported"),
+			NoSharedAddr:  s.Open("F-SKIPCOPY-INTERIOR-PTR"),
+			CompositeKeys: true,
 		}
 		b := gen.New(rt, o)
 		n := rapid.IntRange(2, 5).Draw(rt, "nmethods")
